@@ -7,6 +7,7 @@
                                   exit 1 (exit 2 = undecided is tolerated and listed)
   tools/selftest.py reverts       for every `fix:` commit of /repo: scratch copy with that commit reverted; the property the
                                   fix is recorded under must report a VIOLATION again
+  tools/selftest.py seeds-renamed [k] [glob]   every seeded change (matching glob) with every k-th local renamed on top: still reported
   tools/selftest.py seeds         = tools/run_seed.py --all
 
 Scratch copies live under /tmp/sc and are removed afterwards. /repo is never modified.
@@ -127,10 +128,10 @@ def rename_tree(sc, every=1):
     return n
 
 
-def seeds_renamed(every=1):
+def seeds_renamed(every=1, pattern='*'):
     """every seeded change with all (or every k-th) local renamed on top: the checks that report it on the plain copy must still report it"""
     rc = 0
-    for d in sorted(glob.glob(os.path.join(ROOT, 'seeded', '*'))):
+    for d in sorted(glob.glob(os.path.join(ROOT, 'seeded', pattern))):
         name = os.path.basename(d)
         if os.path.exists(os.path.join(d, 'meta.json')) and 'superseded_by' in json.load(open(os.path.join(d, 'meta.json'))):
             continue
@@ -216,7 +217,7 @@ if __name__ == '__main__':
     if what == 'rename':
         sys.exit(rename(int(sys.argv[2]) if len(sys.argv) > 2 else 1))
     if what == 'seeds-renamed':
-        sys.exit(seeds_renamed(int(sys.argv[2]) if len(sys.argv) > 2 else 1))
+        sys.exit(seeds_renamed(int(sys.argv[2]) if len(sys.argv) > 2 else 1, sys.argv[3] if len(sys.argv) > 3 else '*'))
     if what == 'reverts':
         sys.exit(reverts())
     if what == 'seeds':
